@@ -311,6 +311,16 @@ PROPS = {
         level_note="Trusted: Lean kernel; model validated by correspondence; depends on C05 for the volume column (tested jointly since the code map comes from the real parser).",
         rule="request = document (navigation) or type+document (conversion); reply = all offsets / fragment kinds / error offset. Non-trivial = documents with more than one fragment, all conversions; distinct request lines",
         strength='full on the model: iterators, keyed lookups, fragment index, traversal and typed conversions (type-descriptor family) proved, composed with the proved C05 code map; tie to the code by correspondence',
+        trusted_base=COMMON_TRUST,
+        assumptions=["the code map is the one returned by parsing the same value (offset 0 = root)"],
+    ),
+
+    "C16": dict(
+        tables=[],
+        determined=True,
+        projection_determined=lambda case, reply: number_value_projection(case, reply),
+
+        technique="Lean 4 theorems about a model of the serde Serializer (JSON shape of every data-model construct, structs = ordered objects, key serializer) fed with data recorded from real derive output; end-to-end round trips through to_value/from_value/serde_json on a family of derive-annotated types (direct oracles)",
         level_text=("PARTIAL proof. A recording serde::Serializer in the harness turns each generated Rust datum into SData (what the datum looks like to a Serializer, as produced by the real serde-derive code); the Lean model `ser` of src/serde/ser.rs "
                     "(Serializer, KeySerializer, StringNumberSerializer, compound serializers, the number-token channel, Object::insert semantics) must return exactly json_syntax::to_value(datum) — this ties the model to ser.rs on every run. "
                     "Proved in Lean: C16_shape (null/transparent/externally-tagged/array shapes of every construct, as serde_json documents them), C16_struct (distinct field names, none the private token: ordered object of the fields), C16_map_keys (which key types are accepted and their string form). "
